@@ -389,8 +389,8 @@ class C20:
                         bump(probes, 'leftover_next_to_target_after_fault')
                         continue
                     add_v('frame-violated', f'frame-violated/file-appeared/by={opname}', 'no new file', p, path=p, op=opname)
-            actor_dirs = parents_of([s.get('target') for s in plan['fs'].get('actor', []) if s.get('target')]) | \
-                {s.get('path') for s in plan['fs'].get('actor', []) if s['act'] == 'mkdir'}
+            actor_mk = [s.get('path') for s in plan['fs'].get('actor', []) if s['act'] == 'mkdir' and s.get('path')]
+            actor_dirs = parents_of([s.get('target') for s in plan['fs'].get('actor', []) if s.get('target')]) | set(actor_mk) | parents_of(actor_mk)
             for d in after['dirs']:
                 if d not in before['dirs'] and d not in new_dirs_allowed and d not in actor_dirs:
                     # directories created by the actor's mkdir race are required parents too
@@ -855,9 +855,13 @@ class C20:
         status, so, se = run_cli(argv)
         if sum(f.fired for f in fs.faults) != f_before:
             return
+        outs = [self._with_suffix(p, '.ekrn') for p in inputs]
         for p in inputs:
             data = fs.get(p)
             if data is None:
+                continue
+            if outs.count(self._with_suffix(p, '.ekrn')) > 1:
+                bump(probes, 'dir_mode_output_collision')     # two inputs of one stem: which one wins is not defined by C20
                 continue
             ref = ref_k2e(data)
             if ref[0] != 'ok':
